@@ -80,6 +80,14 @@ class Ctx:
         """Run harness/drivers/<driver>.py against the build of the current tree; returns parsed JSON from stdout."""
         cmd = [build.PY, os.path.join(VERIF, "harness", "drivers", driver + ".py")] + [str(a) for a in args]
         env = build.driver_env(self.lib, extra_env)
+        if os.environ.get("VERIF_COVERAGE"):
+            # development aid (harness/coverage_report.py): which lines of the library do the recorders reach at all
+            cov = os.environ["VERIF_COVERAGE"]
+            os.makedirs(cov, exist_ok=True)
+            env["COVERAGE_CORE"] = "sysmon"
+            cmd = [build.PY, "-m", "coverage", "run", "-p", "--data-file=" + os.path.join(cov, "cov." + self.pid.lower()),
+                   "--include=" + os.path.join(self.lib, "Crypto", "*")] + cmd[1:]
+            timeout *= 4
         env["VERIF_SEED"] = str(self.seed)
         env["VERIF_TIER"] = self.tier
         p = subprocess.run(cmd, input=json.dumps(inp) if inp is not None else None, stdout=subprocess.PIPE,
